@@ -305,7 +305,7 @@ def run(ctx):
             fd = np.float32 if req == np.dtype(np.complex64) else np.float64
             return re.astype(fd).astype(np.float64), im.astype(fd).astype(np.float64)
 
-        shapes = [(), (1,), (5,), (0,), (3, 4), (4, 1), (2, 3, 4), (2, 0, 3)]
+        shapes = [(), (1,), (5,), (0,), (3, 4), (4, 1), (2, 3, 4), (2, 0, 3), (3, 3, 3), (2, 3, 2, 2)]
         n_lay = 0
         for src in DTS:
             for req in DTS:
@@ -321,6 +321,14 @@ def run(ctx):
                         views["transposed"] = make(src, shape[::-1]).T
                         views["column"] = make(src, shape + (3,))[..., 1]
                         views["broadcast"] = np.broadcast_to(make(src, shape[1:]), shape)
+                    if len(shape) >= 3:
+                        # every axis permutation of a dense block (cyclic ones are neither C- nor F-contiguous and not their own inverse)
+                        import itertools as _it
+                        for perm in _it.permutations(range(len(shape))):
+                            if perm != tuple(range(len(shape))):
+                                inv = tuple(perm.index(i) for i in range(len(shape)))
+                                views["permuted" + "".join(map(str, perm))] = make(src, tuple(shape[i] for i in inv)).transpose(perm)
+                        views["moveaxis"] = np.moveaxis(make(src, shape[1:] + shape[:1]), -1, 0)
                     if shape == ():
                         views["scalar"] = make(src, ())[()]
                     for lay, v in views.items():
